@@ -393,7 +393,15 @@ def fail_record(fmt, cm, comps, key, kind, param, t2, k2, with_ck=None):
             "key": key, "damage": kind, "param": repr(param), "text": t2, "read_key": k2, "with_ck": with_ck}
 
 
+def real_plugin():
+    """make sure the real plug-in (pyaes adapter) is the registered cipher"""
+    import bec2format
+    import register_crypto_plugin as plug
+    bec2format.register_AES128(plug.AES128Proxy)
+
+
 def search(ctx):
+    real_plugin()
     r = ctx.rng
     boost = 4 if ctx.brokens else 1
     nfiles = ctx.budget(4, 110) * boost
@@ -463,17 +471,21 @@ def search(ctx):
 
 
 PARTIAL = (
-    "byte replacement and wrong session key are proved as a REDUCTION (C04_forgery_reduction_partial): acceptance with different "
-    "content exhibits a successful MAC comparison on a (key, iv, message, tag) the writer never computed, or a payload-MAC collision "
-    "inside the authentic file; unforgeability of the CBC-MAC itself is cryptographic and is neither assumed nor proved. "
-    "Unconditional (no cryptographic assumption): truncation at every point of binary and text, appended bytes/characters, damage "
-    "confined to a stored entry-MAC / payload-MAC field, the sentinel, an address field, the signature. BEC2 headers (authentication "
-    "blocks) are covered by the sweep on the implementation only; the binary-level theorems hold for every header length.")
+    "proved without any cryptographic assumption (for the registered CBC adapter over every invertible block function): bytes appended "
+    "(binary and text), the file cut short at every point of binary and text, EVERY single-byte replacement of the binary (every "
+    "position, every value; a replaced byte always changes a CBC-MAC tag, size field / entry length bytes / sentinel / signature are "
+    "checked structurally). PARTIAL: 'read with a different session key' (and arbitrary multi-byte replacement) is proved as a "
+    "REDUCTION (C04_forgery_reduction_partial): acceptance with different content exhibits a successful MAC comparison on a "
+    "(key, iv, message, tag) the writer never computed, or a payload-MAC collision inside the authentic file; that MACs under "
+    "different keys differ is cryptographic and is neither assumed nor proved - this clause is covered empirically by the sweep "
+    "(every single-bit change of the key, real plug-in). BEC2 headers (authentication blocks) are covered by the sweep on the "
+    "implementation only; the binary-level theorems hold for every header length.")
 
 
 def replay(ctx, data):
     rc = 0
     shown = 0
+    real_plugin()
     for f in data.get("fails", []):
         d = f["data"]
         print(f["kind"], f["detail"][:400])
